@@ -19,11 +19,10 @@ CLI_TIMEOUT_S = int(os.environ.get('PYVC_CLI_TIMEOUT_S', '240'))
 
 def to_smt2(ob, use_lemmas=True):
     s = z3.Solver()
-    exprs = list(ob.hyps) + [ob.goal]
     for h in ob.hyps:
         s.add(h)
     if use_lemmas:
-        for inst in specs.instances(exprs):
+        for inst in specs.instances(list(ob.hyps), goal=ob.goal):
             s.add(inst)
     s.add(z3.Not(ob.goal))
     return s.to_smt2()
